@@ -1003,6 +1003,28 @@ def _layout_variants(space, src, rng, fill=None):
     return out
 
 
+def _arrays(el):
+    """The ndarrays that hold the entries of an element (one per part of a product-space element)."""
+    import odl
+    sp = getattr(el, 'space', None)
+    if isinstance(sp, odl.ProductSpace):
+        out = []
+        for p_ in el:
+            out += _arrays(p_)
+        return out
+    if hasattr(el, 'tensor'):
+        return [el.tensor.data]
+    if hasattr(el, 'data') and isinstance(getattr(el, 'data'), np.ndarray):
+        return [el.data]
+    if isinstance(el, np.ndarray):
+        return [el]
+    return []
+
+
+def _shares_memory(a, b):
+    return any(np.shares_memory(u, v) for u in _arrays(a) for v in _arrays(b))
+
+
 def _close(a, b):
     a, b = np.asarray(a), np.asarray(b)
     if a.shape != b.shape:
@@ -1197,6 +1219,25 @@ class _Recipes(object):
         add('FlatteningOperator', 'C', lambda: odl.FlatteningOperator(odl.rn(self.shape2)))
         add('FlatteningOperator', 'F', lambda: odl.FlatteningOperator(odl.rn(self.shape2), order='F'))
         add('FlatteningOperatorInverse', 'C', lambda: odl.FlatteningOperator(odl.rn(self.shape2)).inverse)
+        for dname, dspace in (('discr', dsp), ('discr2', dsp2), ('tensor', sp),
+                              ('discr-unitcell', odl.uniform_discr([0] * len(self.shape), list(self.shape), self.shape))):
+            nd_ = len(dspace.shape)
+            size_ = int(np.prod(dspace.shape))
+            last = [t - 1 for t in dspace.shape]
+            pts = {'single-flat': (size_ - 1) if nd_ == 1 else None,
+                   'single-seq': [size_ - 1] if nd_ == 1 else [[t] for t in last],
+                   'single-multi': last if nd_ > 1 else None,
+                   'two': [0, size_ - 1] if nd_ == 1 else [[0, t] for t in last],
+                   'repeated': [0, 0, size_ - 1] if nd_ == 1 else [[0, 0, t] for t in last]}
+            for pname, pt in pts.items():
+                if pt is None:
+                    continue
+                for var in ('point_eval', 'integrate'):
+                    add('SamplingOperator', '%s-%s-%s' % (dname, pname, var),
+                        (lambda dspace=dspace, pt=pt, var=var: odl.SamplingOperator(dspace, pt, variant=var)))
+                for var in ('char_fun', 'dirac'):
+                    add('WeightedSumSamplingOperator', '%s-%s-%s' % (dname, pname, var),
+                        (lambda dspace=dspace, pt=pt, var=var: odl.WeightedSumSamplingOperator(dspace, pt, variant=var)))
         add('SamplingOperator', 'point', lambda: odl.SamplingOperator(dsp2, [[0, 1, 1], [0, 1, 2]]))
         add('SamplingOperator', 'integrate', lambda: odl.SamplingOperator(dsp2, [[0, 1], [2, 1]], variant='integrate'))
         add('WeightedSumSamplingOperator', 'char', lambda: odl.WeightedSumSamplingOperator(dsp2, [[0, 1, 1], [0, 1, 2]]))
@@ -1231,6 +1272,14 @@ class _Recipes(object):
         add('DiscreteFourierTransform.real_pyfftw', 'real-to-complex', lambda: odl.trafos.DiscreteFourierTransform(
             odl.uniform_discr(0, 1, self.cdsp.shape[0])))
         add('DiscreteFourierTransform', 'pyfftw', lambda: odl.trafos.DiscreteFourierTransform(self.cdsp, impl='pyfftw'))
+        for impl in ('numpy', 'pyfftw'):
+            for hc in (True, False):
+                add('DiscreteFourierTransformInverse', 'real-hc%s-%s' % (hc, impl),
+                    (lambda impl=impl, hc=hc: odl.trafos.DiscreteFourierTransform(
+                        odl.uniform_discr(0, 1, self.cdsp.shape[0]), halfcomplex=hc, impl=impl).inverse))
+                add('DiscreteFourierTransform', 'real-hc%s-%s' % (hc, impl),
+                    (lambda impl=impl, hc=hc: odl.trafos.DiscreteFourierTransform(
+                        odl.uniform_discr(0, 1, self.cdsp.shape[0]), halfcomplex=hc, impl=impl)))
         add('DiscreteFourierTransformInverse', 'cn', lambda: odl.trafos.DiscreteFourierTransform(self.cdsp).inverse)
         add('DiscreteFourierTransformInverse', 'pyfftw', lambda: odl.trafos.DiscreteFourierTransform(self.cdsp, impl='pyfftw').inverse)
         add('FourierTransform', 'cn', lambda: odl.trafos.FourierTransform(self.cdsp))
@@ -1447,6 +1496,12 @@ def probe_operator(op, kind, rng, cls, label, sizeclass, setup):
     P(r1 in ran, 'range', 'op(x) is an element of op.range')
     if not scalar_dom:
         P(_flat(x).tobytes() == xb, 'x-changed-oop', 'x bit-for-bit unchanged by op(x)')
+    if not scalar_dom and not functional:
+        # NOT a violation criterion (the property speaks about x being unchanged BY THE CALL, not about the
+        # result being independent of x afterwards): recorded as a statistic, see extra_coverage()
+        ALIASING.setdefault(cls, set())
+        if _shares_memory(r1, x):
+            ALIASING[cls].add(label)
     v1 = np.array([r1]) if functional else np.array(_flat(r1), copy=True)
     # the same call again must give the same values (first-call effects, hidden state)
     try:
@@ -1536,6 +1591,26 @@ def probe_operator(op, kind, rng, cls, label, sizeclass, setup):
                   'out of the same shape from another space raises OpRangeError; neither x nor out touched')
             except Exception as e:      # noqa
                 P(False, 'reject-range-sameshape', 'foreign out raised %s instead of OpRangeError' % type(e).__name__)
+    if isinstance(dom, odl.ProductSpace) and len(dom) >= 1 and not scalar_dom:
+        parts = list(x)
+        for lab, bad in (('too-long', parts + [parts[-1].copy()]), ('too-short', parts[:-1])):
+            for with_out in ((False, True) if not functional else (False,)):
+                y = _poison(ran) if with_out else None
+                yb = _flat(y).tobytes() if with_out else None
+                try:
+                    if with_out:
+                        op(bad, out=y)
+                    else:
+                        op(bad)
+                    P(False, 'reject-domain-%s' % lab,
+                      'a list of %d ready-made components for a domain with %d parts must be rejected'
+                      % (len(bad), len(dom)))
+                except (OpDomainError, TypeError):
+                    P(y is None or _flat(y).tobytes() == yb, 'reject-domain-%s' % lab,
+                      'wrong-length component list raises OpDomainError/TypeError and out is untouched')
+                except Exception as e:      # noqa
+                    P(False, 'reject-domain-%s' % lab, 'wrong-length component list raised %s instead of '
+                      'OpDomainError' % type(e).__name__)
     try:
         op('not an element')
         P(False, 'reject-domain', 'a string argument must be rejected')
@@ -1544,6 +1619,85 @@ def probe_operator(op, kind, rng, cls, label, sizeclass, setup):
     except Exception as e:      # noqa
         P(False, 'reject-domain', 'a string argument raised %s instead of OpDomainError' % type(e).__name__)
     return res
+
+
+def big_layout_probes(rng):
+    """In-place calls of the lincomb-based operators with non-contiguous `out` and `x` in all three regimes of
+    _lincomb_impl (below THRESHOLD_SMALL, below THRESHOLD_MEDIUM, BLAS: 50000 exactly and above), for
+    float32 / float64 / complex128, compared with the out-of-place result on contiguous data."""
+    import odl
+    O = odl.operator.operator
+    out = []
+    shapes = [(99,), (100,), (49999,), (50000,), (65536,), (250, 200), (260, 200)]
+
+    def regime(n):
+        return 'small' if n < 100 else ('medium' if n < 50000 else 'blas')
+
+    for shape in shapes:
+        n = int(np.prod(shape))
+        for dt in ('float32', 'float64', 'complex128'):
+            sp = odl.tensor_space(shape, dtype=dt)
+            rtol = 1e-4 if dt == 'float32' else 1e-9
+            vals = (np.arange(n) % 7 - 3).astype(dt).reshape(shape)
+            if dt == 'complex128':
+                vals = vals + 1j * ((np.arange(n) % 5) - 2).reshape(shape)
+            x = sp.element(vals)
+            v = sp.element(((np.arange(n) % 3) + 1).astype(dt).reshape(shape))
+            ops = [('ScalingOperator', lambda: odl.ScalingOperator(sp, 2.5)),
+                   ('ScalingOperator0', lambda: odl.ScalingOperator(sp, 0.0)),
+                   ('IdentityOperator', lambda: odl.IdentityOperator(sp)),
+                   ('ZeroOperator', lambda: odl.ZeroOperator(sp)),
+                   ('MultiplyOperator.scalar', lambda: odl.MultiplyOperator(2.0, domain=sp, range=sp)),
+                   ('MultiplyOperator.elem', lambda: odl.MultiplyOperator(v)),
+                   ('ConstantOperator', lambda: odl.ConstantOperator(v)),
+                   ('OperatorLeftScalarMult', lambda: O.OperatorLeftScalarMult(odl.MultiplyOperator(v), 3.0)),
+                   ('OperatorRightScalarMult', lambda: O.OperatorRightScalarMult(odl.MultiplyOperator(v), 3.0)),
+                   ('OperatorSum', lambda: O.OperatorSum(odl.IdentityOperator(sp), odl.ScalingOperator(sp, 2.0))),
+                   ('OperatorVectorSum', lambda: O.OperatorVectorSum(odl.IdentityOperator(sp), v)),
+                   ('OperatorLeftVectorMult', lambda: O.OperatorLeftVectorMult(odl.IdentityOperator(sp), v)),
+                   ('ProximalL2Squared', lambda: odl.solvers.proximal_l2_squared(sp)(0.5))]
+            if len(shape) == 1:
+                ops.append(('LinCombOperator', lambda: odl.LinCombOperator(sp, 2.0, -1.0)))
+            for cls, mk in ops:
+                try:
+                    op = mk()
+                except Exception:      # noqa
+                    continue
+                xin = op.domain.element([x, v]) if cls == 'LinCombOperator' else x
+                try:
+                    ref = np.array(_flat(op(xin)), copy=True)
+                except Exception as e:      # noqa
+                    out.append(C.Probe(False, '%s:big-layout-raises:%s' % (cls, regime(n)),
+                                       '%s on %s %s: op(x) raised %s' % (cls, dt, shape, type(e).__name__), None))
+                    continue
+                xvars = [('contig', xin)] + _layout_variants(op.domain, xin, rng)
+                for ylab, y in [('contig', _poison(op.range))] + _layout_variants(op.range, None, rng, fill=True):
+                    for xlab, xl in xvars:
+                        if ylab == 'contig' and xlab == 'contig':
+                            continue
+                        if ylab != 'contig' and xlab not in ('contig', ylab):
+                            continue        # (strided, strided), (F, F) ... and each against contiguous
+                        yy = y if xlab == xvars[0][0] or ylab == 'contig' else y
+                        for a_ in _arrays(yy):
+                            a_[...] = np.nan if _is_float(a_.dtype) else 77
+                        xb = _flat(xl).tobytes()
+                        try:
+                            r = op(xl, out=yy)
+                            got = _flat(yy)
+                            ok = (r is yy) and got.shape == ref.shape and bool(
+                                np.allclose(got, ref, rtol=rtol, atol=1e-6 if dt == 'float32' else 1e-11)) \
+                                and _flat(xl).tobytes() == xb
+                            detail = {'expected': ref[:4].tolist(), 'got': got[:4].tolist()}
+                        except Exception as e:      # noqa
+                            ok, detail = False, '%s: %s' % (type(e).__name__, str(e)[:100])
+                        rp = ("import sys\nsys.path.insert(0, %r)\nfrom harness import c03\nimport random\n"
+                              "ps = c03.big_layout_probes(random.Random(0))\n"
+                              "bad = [p for p in ps if not p.ok and p.key == %r]\nok = not bad\nobserved = [p.what for p in bad][:3]\n"
+                              % (C.VERIF, '%s:big-layout:%s' % (cls, regime(n))))
+                        out.append(C.Probe(ok, '%s:big-layout:%s' % (cls, regime(n)),
+                                           '%s on %s %s: op(x, out=y) with y %s, x %s holds op(x), returns y, x unchanged'
+                                           % (cls, dt, shape, ylab, xlab), rp, detail))
+    return out
 
 
 def _all_recipes(rng, cfg):
@@ -1587,6 +1741,8 @@ def enumerate_classes():
 
 
 COVERAGE = {}
+# class -> recipe labels whose out-of-place result shares memory with x (statistic, not an alarm)
+ALIASING = {}
 # base classes whose `_call` is abstract / delegates to a subclass hook; never instantiated on their own
 ABSTRACT_BASES = ('Functional', 'DiscreteFourierTransformBase', 'FourierTransformBase', 'WaveletTransformBase',
                   'PointwiseInnerBase', 'PointwiseTensorFieldOperator')
@@ -1606,8 +1762,23 @@ def replay_probe(setup, clause):
     return (not bad), [p.what for p in bad]
 
 
+def extra_coverage():
+    """Measurements of the last probes() run that are information, not obligations."""
+    aliasing = {k: sorted(v) for k, v in sorted(ALIASING.items()) if v}
+    return {'classes_total': COVERAGE.get('classes_total'),
+            'classes_probed': len(COVERAGE.get('classes_probed', [])),
+            'abstract_bases': COVERAGE.get('abstract_bases'),
+            'classes_without_recipe': COVERAGE.get('classes_without_recipe'),
+            'recipe_variants_not_buildable': len(COVERAGE.get('recipes_failed_to_build', [])),
+            'shape_configurations': [c for c, _ in CFGS],
+            'operators_whose_result_shares_memory_with_x': aliasing,
+            'note': 'a result aliasing x (RealPart/ImagPart views, FlatteningOperator order C and its inverse) is '
+                    'NOT a C03 violation: the property requires x unchanged by the call, which is checked bit-wise'}
+
+
 def probes(rng, tier):
     import random
+    ALIASING.clear()
     out = []
     seen_classes = set()
     failed_build = []
@@ -1625,6 +1796,7 @@ def probes(rng, tier):
                 seen_classes.add(type(op).__name__)
                 # classes reached below the top object (operands) count as covered, too
                 out += probe_operator(op, kind, random.Random(seed + 1), name, label, cfg, (cfg, idx, seed))
+    out += big_layout_probes(random.Random(seeds[0]))
     allc = enumerate_classes()
     names = sorted(set(c.__name__ for c in allc))
     COVERAGE['classes_total'] = len(allc)
